@@ -9,7 +9,10 @@ import nauyaca.server.server as srv
 import nauyaca.server.tls_protocol as tp
 
 import vf.server  # noqa: F401
-from vf import FixedClock, HarnessError, NoLog
+import asyncio as _asyncio
+import time as _time
+
+from vf import FixedClock, HarnessError, NoLog, bind
 from vf.stubs import FakeAsyncio, MiniLoop, _StopServer
 
 
@@ -23,11 +26,11 @@ def capture(config, **kw):
     loop = MiniLoop()
     fa = FakeAsyncio(loop)
     made = []
-    srv.asyncio = fa
-    mw.asyncio = fa
-    sp.asyncio = fa
-    tp.asyncio = fa
-    mw.time = FixedClock()          # CrossHair would otherwise make time.monotonic() a symbolic float
+    bind(srv, _asyncio, fa)
+    bind(mw, _asyncio, fa, required=False)
+    bind(sp, _asyncio, fa)
+    bind(tp, _asyncio, fa, required=False)
+    bind(mw, _time, FixedClock(), required=False)   # CrossHair would otherwise make time.monotonic() a symbolic float
     srv.configure_logging = lambda **k: None
     srv.get_logger = lambda name=None: NoLog()
     srv.create_server_context = lambda *a, **k: made.append(_Ctx("stdlib", (a, k))) or made[-1]
